@@ -341,6 +341,10 @@ type genCfg struct {
 	ann     bool   // annotations (ssl-always-add-https, ssl-passthrough, auth-tls-secret)
 	gateway bool   // Gateway API listeners with certificateRefs
 	defsec  string // the --default-ssl-certificate secret: changed more often
+	// replicated: one certificate copied into several namespaces (identical content under
+	// distinct secrets) and batches that renew all the copies together, to the same new
+	// content or to different ones
+	replicated bool
 }
 
 var (
@@ -499,6 +503,20 @@ func genHistory(rng *rand.Rand, cfg genCfg, n int) [][]op {
 			}
 		}
 	}
+	if cfg.replicated {
+		// tls-1 exists everywhere with the same content
+		cn := pickS(rng, cnPool)
+		var nf []op
+		for _, o := range first {
+			if !(o.Kind == "Secret" && o.Name == "tls-1") {
+				nf = append(nf, o)
+			}
+		}
+		first = nf
+		for _, ns := range namespaces {
+			first = append(first, op{Op: "create", Kind: "Secret", NS: ns, Name: "tls-1", CN: cn})
+		}
+	}
 	used := map[string]bool{}
 	for i, k := 0, 1+rng.Intn(5); i < k; i++ {
 		ns, name := genNS(rng), pickS(rng, ingNames)
@@ -529,6 +547,28 @@ func genHistory(rng *rand.Rand, cfg genCfg, n int) [][]op {
 		var b []op
 		for j, m := 0, 1+rng.Intn(2); j < m; j++ {
 			var o op
+			if cfg.replicated && rng.Intn(3) == 0 {
+				// every copy of one secret name is renewed in this batch
+				name := pickS(rng, secretNames[:2])
+				if rng.Intn(3) > 0 {
+					name = "tls-1"
+				}
+				cn, same := pickS(rng, cnPool), rng.Intn(3) > 0
+				for _, sec := range c.ofKind("Secret") {
+					if sec.Name != name {
+						continue
+					}
+					if !same {
+						cn = pickS(rng, cnPool)
+					}
+					u := op{Op: "update", Kind: "Secret", NS: sec.NS, Name: name, CN: cn}
+					b = append(b, u)
+					c.apply([]op{u})
+				}
+				if len(b) > 0 {
+					break
+				}
+			}
 			k := rng.Intn(10)
 			if cfg.gateway && rng.Intn(2) == 0 {
 				// gateway mode: half of the changes concern the gateways and their secrets
